@@ -8,6 +8,7 @@ import GlmVerif.Props.C07
 import GlmVerif.Props.C08
 import GlmVerif.Props.C09
 import GlmVerif.Props.C10
+import GlmVerif.Props.C11
 import GlmVerif.Props.C12
 import GlmVerif.Props.C13
 import GlmVerif.Props.C14
